@@ -115,6 +115,10 @@ type propCfg struct {
 	Stubs       []string
 	Rule        string
 	Assumptions []string
+	// RaceEngines: engines that are additionally run from a -race build in
+	// which the scheduler's own synchronisation is hidden from the detector
+	// (deterministic happens-before race detection on serialised executions).
+	RaceEngines []string
 }
 
 func trouble(format string, a ...any) {
@@ -144,8 +148,12 @@ func simEnv() []string {
 	return append(os.Environ(), "GODEBUG=randautoseed=0")
 }
 
-func build(work string) {
+func build(work string, race bool) {
 	cmd := exec.Command(V+"/tools/build.sh", work)
+	cmd.Env = os.Environ()
+	if race {
+		cmd.Env = append(cmd.Env, "VERIF_RACE=1")
+	}
 	cmd.Stderr = os.Stderr
 	cmd.Stdout = os.Stderr
 	if err := cmd.Run(); err != nil {
@@ -221,7 +229,7 @@ func loadKnown() []known {
 func replayCmd(id, file string) {
 	work := fmt.Sprintf("/tmp/verif-work/%s-replay-%d", id, os.Getpid())
 	defer os.RemoveAll(work)
-	build(work)
+	build(work, false)
 	abs, _ := filepath.Abs(file)
 	r, stderr, err := runReplay(work, id, abs, 1)
 	if err != nil {
@@ -278,7 +286,7 @@ func check(id, tier string) {
 		os.RemoveAll(work)
 		os.Exit(code)
 	}
-	build(work)
+	build(work, len(cfg.RaceEngines) > 0)
 	tree := treeID()
 	kn := loadKnown()
 
@@ -537,6 +545,18 @@ func check(id, tier string) {
 		reported = append(reported, path)
 		code = 1
 	}
+	raceNote := ""
+	if code == 0 && len(cfg.RaceEngines) > 0 {
+		var rv int
+		rv, raceNote = racePhase(id, tier, seed, cfg, work, tree, budget/2, workers)
+		if rv > 0 {
+			code = 1
+			reported = append(reported, "data-race")
+		}
+	}
+	if raceNote != "" {
+		detNote += "; " + raceNote
+	}
 	writeEvidence(id, tier, seed, cfg, outs, time.Since(start), len(reported)+regressions, knownPrinted, detNote)
 	var runs int64
 	for _, o := range outs {
@@ -551,6 +571,115 @@ type wres struct {
 	stderr string
 	err    error
 	killed bool
+}
+
+var raceRe = regexp.MustCompile(`(?s)WARNING: DATA RACE.*?==================`)
+
+// racePhase runs the race-detector configuration of the listed engines. A data
+// race report kills the worker (halt_on_error); the case it was executing is
+// then replayed twice in fresh processes and must report a race both times.
+func racePhase(id, tier string, seed uint64, cfg propCfg, work, tree string, budget time.Duration, workers int) (violations int, note string) {
+	bin := filepath.Join(work, "sim.race.test")
+	if budget < 5*time.Second {
+		budget = 5 * time.Second
+	}
+	per := workers / len(cfg.RaceEngines)
+	if per < 1 {
+		per = 1
+	}
+	type rr struct {
+		eng    string
+		w      int
+		stderr string
+		runs   int64
+		ok     bool
+	}
+	var mu sync.Mutex
+	var all []rr
+	var wg sync.WaitGroup
+	for ei, eng := range cfg.RaceEngines {
+		for w := 0; w < per; w++ {
+			wg.Add(1)
+			go func(eng string, w int) {
+				defer wg.Done()
+				out := filepath.Join(work, fmt.Sprintf("race-%s-%d.json", eng, w))
+				cur := filepath.Join(work, fmt.Sprintf("race-cur-%s-%d.json", eng, w))
+				var se bytes.Buffer
+				cmd := exec.Command(bin, "-test.run", "TestProp", "-test.cpu", "1", "-test.timeout", "0", "-verif.race", "-verif.engine="+eng,
+					"-verif.prop="+id, "-verif.tier="+tier, "-verif.budget="+budget.String(), "-verif.worker="+strconv.Itoa(100+w),
+					"-verif.seed="+strconv.FormatUint(seed, 10), "-verif.out="+out, "-verif.cur="+cur, "-verif.known="+V+"/known_findings.json")
+				cmd.Dir = work
+				cmd.Env = append(simEnv(), "GORACE=halt_on_error=1 exitcode=66")
+				cmd.Stderr = &se
+				cmd.Stdout = &se
+				done := make(chan error, 1)
+				go func() { done <- cmd.Run() }()
+				select {
+				case <-done:
+				case <-time.After(budget + 4*time.Minute):
+					cmd.Process.Kill()
+					<-done
+				}
+				r := rr{eng: eng, w: w, stderr: se.String()}
+				if b, err := os.ReadFile(out); err == nil {
+					var o workerOut
+					if json.Unmarshal(b, &o) == nil {
+						r.runs, r.ok = o.Runs, true
+					}
+				}
+				mu.Lock()
+				all = append(all, r)
+				mu.Unlock()
+			}(eng, w+ei*per)
+		}
+	}
+	wg.Wait()
+	var runs int64
+	for _, r := range all {
+		runs += r.runs
+		if r.ok {
+			continue
+		}
+		rep := raceRe.FindString(r.stderr)
+		if rep == "" {
+			trouble("race-phase worker (%s) died without a result and without a race report:\n%s", r.eng, tail(r.stderr, 40))
+		}
+		cur := filepath.Join(work, fmt.Sprintf("race-cur-%s-%d.json", r.eng, r.w))
+		cj, err := os.ReadFile(cur)
+		if err != nil {
+			trouble("race report without a current case: %v", err)
+		}
+		dir := filepath.Join(V, "replays", id)
+		os.MkdirAll(dir, 0o755)
+		h := fnv.New64a()
+		h.Write(cj)
+		path := filepath.Join(dir, fmt.Sprintf("data-race-%016x.json", h.Sum64()))
+		rf, _ := json.MarshalIndent(&replayFile{Property: id, Engine: r.eng, Case: cj,
+			Expect: &violation{Property: id, Class: "data-race", Msg: "the Go race detector reports a data race on this (serialised, replayable) execution"},
+			Tree: tree, Trace: strings.Split(rep, "\n")}, "", " ")
+		os.WriteFile(path, rf, 0o644)
+		again := 0
+		for i := 0; i < 2; i++ {
+			var se bytes.Buffer
+			cmd := exec.Command(bin, "-test.run", "TestProp", "-test.cpu", "1", "-test.timeout", "0", "-verif.race", "-verif.engine="+r.eng, "-verif.prop="+id, "-verif.replay="+path, "-verif.out="+filepath.Join(work, "race-replay.json"))
+			cmd.Dir = work
+			cmd.Env = append(simEnv(), "GORACE=halt_on_error=1 exitcode=66")
+			cmd.Stderr = &se
+			cmd.Stdout = &se
+			cmd.Run()
+			if raceRe.MatchString(se.String()) {
+				again++
+			}
+		}
+		if again == 2 {
+			fmt.Printf("violation: %s/data-race: the race detector reports a data race (engine %s); first report:\n%s\n", id, r.eng, tail(rep, 30))
+			fmt.Printf("VIOLATION property=%s replay=%s\n", id, path)
+			return 1, fmt.Sprintf("race phase: %d runs, race reported", runs)
+		}
+		os.Remove(path)
+		fmt.Printf("RACE-REPORT (not reproduced on replay %d/2, not counted): %s\n", again, tail(rep, 12))
+	}
+	return 0, fmt.Sprintf("race phase: %d runs of engines %v from a -race build with the scheduler's synchronisation hidden from the detector, no race reported", runs, cfg.RaceEngines)
 }
 
 func res2outs(res []wres) []*workerOut {
